@@ -24,6 +24,8 @@ import GoNeat.Model.SolverDepth
 
 namespace GoNeat.C13
 
+set_option linter.unusedSectionVars false
+
 variable {W : Type} [Scalar W]
 
 section StdDepth
@@ -121,5 +123,40 @@ theorem runD_call (net : Net W) (σ : Nat → W → Option W) (ops : List (Op W)
     exact ⟨trivial, trivial⟩
 
 end StdDepth
+
+/-! ## non-vacuity: the usage pattern of the demo (capped query that hits the cap, activation, flush, RecursiveSteps)
+    on a network with a long and a short path to the output, over the exact `Int` scalar -/
+section Examples
+open GoNeat.ExactInt GoNeat.Solver GoNeat.SolverD
+
+private def nd (k : Kind) (ins : List (Nat × Int)) (i : Nat) : NNodeS Int :=
+  { id := i + 1, kind := k, act := 14, incoming := ins.map fun p => { src := p.1, dst := i, w := p.2, recur := false },
+    outgoing := [] }
+
+/-- 0 (input) → 1 → 2 → 3 → 5 (output), short path 0 → 4 → 5, self-loop on 5: depth 4 -/
+def deepNet : Net Int :=
+  { id := 1, inputs := [0], outputs := [5],
+    nodes := [nd Kind.input [] 0, nd Kind.hidden [(0, 1)] 1, nd Kind.hidden [(1, 2)] 2, nd Kind.hidden [(2, 1)] 3,
+              nd Kind.hidden [(0, 3)] 4, nd Kind.output [(3, 1), (4, 1), (5, 1)] 5] }
+
+def deepHist : List (OpD Int) := [.depth 2, .call (.load [1]), .call (.activate 2)]
+def deepSeq : List (OpD Int) := [.call (.load [1]), .call .recursive, .depth 0, .depth 4, .depth 3]
+
+/-- the capped query of the history hits the cap, the uncapped one answers 4; caps at / below the depth -/
+example : (runD deepNet sigmaInt deepHist (init deepNet)).2.map (·.depth) = [some (2, .exceeded), none, none] := by decide
+example : (runD deepNet sigmaInt deepSeq (init deepNet)).2.map (·.depth)
+    = [none, none, some (4, .ok), some (4, .ok), some (3, .exceeded)] := by decide
+/-- the hypothesis of `depth_query_state_unchanged` holds on the fresh state and the query returns it as it is -/
+example : Depth.outsUnmarked deepNet ((init deepNet).map (·.visited)) = true ∧
+    (depthQuery deepNet 2 (init deepNet)).1.map (·.visited) = (init deepNet).map (·.visited) := by decide
+/-- not trivial: the history leaves activations behind (without a flush the sequence answers 16, not 11) ... -/
+example : (runD deepNet sigmaInt deepSeq (init deepNet)).2.map (·.outs) = [[0], [11], [11], [11], [11]] := by decide
+example : (runD deepNet sigmaInt deepSeq (runD deepNet sigmaInt deepHist (init deepNet)).1).2.map (·.outs)
+    = [[0], [16], [16], [16], [16]] := by decide
+/-- ... and with the flush it is the fresh result again -/
+example : (runD deepNet sigmaInt deepSeq (flush (runD deepNet sigmaInt deepHist (init deepNet)).1).1).2.map (·.outs)
+    = [[0], [11], [11], [11], [11]] := by decide
+
+end Examples
 
 end GoNeat.C13
